@@ -27,11 +27,11 @@ theorem seq_leaf (p : Path) (c : Cfg) (f : Nat) (ty : Ty) (h : LeafTy ty) (l : B
     (cases l with
      | id n =>
        simp only [BLeaf.tok] at hn
-       simp only [deTok, hn, hinted, deser, leafOf, valLeaf, leafPrim, BLeaf.tok, Event.ofRes, Except.map, enumVal]
+       simp only [deTok, hn, hinted, deser, leafOf, valLeaf, u16Leaf, leafPrim, BLeaf.tok, Event.ofRes, Except.map, enumVal]
        cases idPrim c n <;> simp [Except.map, leafOf] <;> (try (split <;> simp_all [Except.map]))
      | _ =>
        simp only [BLeaf.tok] at hn
-       simp [deTok, hn, hinted, deser, leafOf, valLeaf, leafPrim, BLeaf.tok, Event.ofRes, Except.map, enumVal] <;>
+       simp [deTok, hn, hinted, deser, leafOf, valLeaf, u16Leaf, leafPrim, BLeaf.tok, Event.ofRes, Except.map, enumVal] <;>
        (try (split <;> simp_all [Except.map])))
 
 /-- tape path, the same. -/
@@ -42,11 +42,11 @@ theorem tape_leaf (c : Cfg) (tape : List TTok) (f : Nat) (ty : Ty) (h : LeafTy t
     (cases l with
      | id n =>
        simp only [BLeaf.ttok] at ht
-       simp only [tVal, ht, visitKey, valLeaf, leafPrim, Except.map, enumVal]
+       simp only [tVal, ht, visitKey, valLeaf, u16Leaf, u16Tok, leafPrim, Except.map, enumVal]
        cases idPrim c n <;> simp [Except.map]
      | _ =>
        simp only [BLeaf.ttok] at ht
-       simp [tVal, ht, visitKey, valLeaf, leafPrim, Except.map, enumVal])
+       simp [tVal, ht, visitKey, valLeaf, u16Leaf, u16Tok, leafPrim, Except.map, enumVal])
 
 /-- the reference on a leaf node. -/
 theorem spec_leaf (c : Cfg) (ty : Ty) (h : LeafTy ty) (l : BLeaf) :
